@@ -115,7 +115,7 @@
     // ---- the VM half (one tracker per render, charged once per instruction, shared by nested evaluations) is G-VM:
     // no contract reaches eval_impl. BOUNDED stand-in, executed natively on the real engine: for a set of programs
     // with macros / includes / imports / inheritance / loops, every budget in 0..=cost+3 and the extremes.
-//# ob name=fuel_vm_native role=native_bounded fn=vm::eval_impl+State::fuel_levels kind=bounded bound="7 programs (straight line, loop, macro, include, include in loop, import, extends+super) x budgets 0..=cost+3, 2^63-1, 2^63, u64::MAX-1, u64::MAX; 3 repetitions" stmt="each render has a fixed threshold cost+1: it succeeds with the unlimited-fuel output for every budget above cost and fails with OutOfFuel (possibly wrapped by the include error) for every budget at or below; consumed + remaining == budget; consumption is the same on every repetition and accumulates across nested templates"
+//# ob name=fuel_vm_native role=native_bounded fn=vm::eval_impl+State::fuel_levels kind=bounded bound="12 programs (straight line, loop, macro, include, include in loop, import, extends+super, and macros reached through map / list / namespace values, as arguments and as a handed-on caller) x budgets 0..=cost+3, 2^63-1, 2^63, u64::MAX-1, u64::MAX; 3 repetitions" stmt="each render has a fixed threshold cost+1: it succeeds with the unlimited-fuel output for every budget above cost and fails with OutOfFuel (possibly wrapped by the include error) for every budget at or below; consumed + remaining == budget; consumption is the same on every repetition and accumulates across nested templates"
     fn fuel_vm_native() {
         use crate::{Environment, ErrorKind};
         fn is_out_of_fuel(e: &crate::Error) -> bool {
